@@ -394,7 +394,10 @@ func main() {
 			}
 		}
 		if ks, _ := keymat.Get(u.Proto, u.IDSet, u.N, u.T, u.Material, *vkit.Seed); ks != nil && !ks.Unchanged() {
-			res.Hard("cached key material " + u.group() + " was modified in place by a signing session of unit " + u.key() + "; later cases on it are not meaningful")
+			// the same in-memory key material is used for all signing sessions of a unit, as an application
+			// would: a session that modifies the material it was given breaks every later session with it
+			res.Violate("key-material-modified-by-signing|"+u.protoName(), "a signing session of unit "+u.key()+" modified the key material object it was given ("+u.group()+"): later sessions with the same configuration object sign with a corrupted share",
+				map[string]interface{}{"unit": u})
 		}
 		for base, hs := range hits {
 			failing := map[string]bool{}
